@@ -161,7 +161,12 @@ pub fn gen_c08(seed: u64, thorough: bool) -> Plan {
     let config = gen_config(&mut g, proto, cipher, transport, 0);
     // every fault alone first (the catalogue cycles), then sequences
     let n = if (seed / 40) % 2 == 0 { 1 } else { g.range(2, if thorough { 8 } else { 5 }) } as usize;
-    let faults: Vec<Fault> = (0..n).map(|_| gen_fault(&mut g, transport)).collect();
+    let mut faults: Vec<Fault> = (0..n).map(|_| gen_fault(&mut g, transport)).collect();
+    if (seed / 7) % 3 == 1 && g.chance(50) {
+        // cold start: what a process sets up on its first flow is most exposed to a resource fault - half of the cold plans
+        // begin with a descriptor-exhaustion window
+        faults[0] = Fault::FdExhaustion { on_client: g.chance(60), mask: g.range(1, 15) as u8, flows: g.range(1, 3) as u32 };
+    }
     Plan {
         property: "C08".into(),
         scenario: "survival".into(),
@@ -170,7 +175,8 @@ pub fn gen_c08(seed: u64, thorough: bool) -> Plan {
         config,
         knobs: KnobsPlan { latency_us: *g.pick(&[0, 0, 200, 5000]), ..KnobsPlan::simple() },
         flows: vec![],
-        extra: serde_json::json!({ "faults": faults, "cold_start": (seed / 7) % 3 == 1 }),
+        // (cold plans run in a process of their own: "freshly started" includes the process-wide state)
+        extra: serde_json::json!({ "faults": faults, "cold_start": (seed / 7) % 3 == 1, "fresh_process": (seed / 7) % 3 == 1 }),
     }
 }
 
